@@ -73,8 +73,17 @@ class P:
                     mem.append(esc(a))
                 elif k < 0.8:
                     mem.append(esc(a) + b"-" + esc(b))
-                elif k < 0.9:
+                elif k < 0.87:
                     mem.append(rnd.choice([b"[:alpha:]", b"[:digit:]", b"[:punct:]", b"[:space:]"]))
+                elif k < 0.93:
+                    # collating symbols and equivalence classes: a single character stands for itself (also as a range end),
+                    # anything else is rejected; their text never reaches the regular expression unescaped
+                    x = rnd.choice([a, a, b"]", b"-", b".", b"=", b")|(", b"a+", b"", b"ab", "\u00e9".encode(), b"\xff"])
+                    o, c_ = rnd.choice([(b"[.", b".]"), (b"[=", b"=]")])
+                    m_ = o + x + c_
+                    if rnd.random() < 0.3:
+                        m_ = m_ + b"-" + esc(b)
+                    mem.append(m_)
                 else:
                     mem.append(esc(a) + b"\\-" + esc(b))
             neg = rnd.choice([b"", b"", b"!", b"^"])
